@@ -63,6 +63,17 @@ inline ArtFile readArt(const std::vector<uint8_t>& bytes)
 	return ArtFile::Read(r);
 }
 
+// as readArt, also reporting how many bytes the reader consumed
+inline ArtFile readArtConsumed(const std::vector<uint8_t>& bytes, uint64_t& consumed)
+{
+	std::unique_ptr<uint8_t[]> p(new uint8_t[bytes.size() ? bytes.size() : 1]);
+	std::memcpy(p.get(), bytes.data(), bytes.size());
+	Stream::MemoryReader r(p.get(), bytes.size());
+	ArtFile a = ArtFile::Read(r);
+	consumed = r.Position();
+	return a;
+}
+
 inline std::vector<uint8_t> writeArt(const ArtFile& a)
 {
 	Stream::DynamicMemoryWriter w;
